@@ -794,17 +794,46 @@ theorem next_save_after_outage_stores_state (c c' : Circ) (cal : Val → Option 
     | paramError => simp at h
     | unknown => simp at h
 
-/-- the stop on a failing storage, what the code does: a write fault of a started circuit always ends in an
-    exception that leaves `run_forever` (of a save's `pop`, or of the stop-time write, which is not protected) —
-    and such an exception leaves BEFORE the clean-up: no block gets its `stop()`, nothing is awaited -/
+/-- `stop_on_failing_storage` (with the repair `patches/C08-storage-fault-at-stop-skips-cleanup.diff`): a storage fault
+    at the stop no longer ends in an exception — whatever fails, the clean-up begins (`stopping`) with the blocks as
+    they are, and its end leaves the circuit `stopped` with every timer cancelled.  The storage then holds what was
+    written before the fault: with working writes and no save letting an exception out, the stop time of THIS stop;
+    with failing writes the stop-time slot is untouched (no stamp, or the stale one of the previous run) -/
 theorem stop_on_failing_storage (c : Circ) (f : Faults) (t : Time)
-    (hph : c.phase = .running ∨ c.phase = .aborted ∨ c.phase = .failed) (hok : c.startOk = true) :
-    (f.write = true → (c.stopBeginF f t).2 = true) ∧
-    ((c.stopBeginF f t).2 = true → (c.stopBeginF f t).1.blocks = c.blocks ∧ (c.stopBeginF f t).1.phase = .stopped) := by
-  unfold Circ.stopBeginF
-  rcases hph with h | h | h <;> cases hw : f.write <;>
+    (hph : c.phase = .running ∨ c.phase = .aborted) (hok : c.startOk = true)
+    (hkeys : ∀ b ∈ c.blocks, b.key ≠ stopKey) :
+    (c.stopBeginF f t).phase = .stopping ∧ (c.stopBeginF f t).blocks = c.blocks ∧
+    ((c.stopBeginF f t).stopEnd t true).phase = .stopped ∧
+    (∀ b ∈ ((c.stopBeginF f t).stopEnd t true).blocks, b.dyn.timer = none) ∧
+    (f.write = false → (saveAllF f c.store c.blocks).2 = false →
+      (c.stopBeginF f t).store.get? stopKey = some (.ts t)) ∧
+    (f.write = true → (c.stopBeginF f t).store.get? stopKey = c.store.get? stopKey) := by
+  have hother : ∀ (bs : List Blk) (s : Storage), (∀ b ∈ bs, b.key ≠ stopKey) →
+      (saveAllF f s bs).1.get? stopKey = s.get? stopKey := by
+    intro bs
+    induction bs with
+    | nil => intro s _; rfl
+    | cons b r ih =>
+      intro s hk
+      have hb : (saveBlkF f s b).1.get? stopKey = s.get? stopKey := by
+        have hne : stopKey ≠ b.key := fun h => hk b (List.mem_cons_self ..) h.symm
+        unfold saveBlkF
+        cases b.persistent <;> cases getState b.kind b.dyn <;> cases f.write <;> cases f.remove <;>
+          simp [Storage.get?_set_ne _ _ hne, Storage.get?_erase_ne _ hne]
+      simp only [saveAllF]
+      cases hx : saveBlkF f s b with
+      | mk s1 x =>
+        rw [hx] at hb
+        cases x
+        · simp only; rw [ih s1 (fun b' hb' => hk b' (List.mem_cons_of_mem _ hb'))]; exact hb
+        · exact hb
+  have hst := hother c.blocks c.store hkeys
+  unfold Circ.stopBeginF Circ.stopEnd
+  rcases hph with h | h <;> cases hw : f.write <;>
     cases hx : saveAllF f c.store c.blocks with
-    | mk s x => cases x <;> simp [h, hok, hw, hx]
+    | mk s x =>
+      rw [hx] at hst
+      cases x <;> simp_all [Storage.get?_set_same]
 
 /-- the start on a storage whose reads fail: an entry that cannot be read is treated as absent (the error is
     suppressed, the block is initialised normally), while an exception of `_check_persistent_data` — the read of
@@ -1191,7 +1220,7 @@ theorem translated_persist_check_without_storage (st : StampRead) (ks : List Str
   cases h : (bs.filter (·.persistent)) <;> simp_all
 
 /-- meaning of the primitives of the stop fragment on a storage with faults `f`, up to the first `await` of the
-    clean-up; the flag: an exception leaves `run_forever` BEFORE the clean-up -/
+    clean-up; the flag: an exception leaves `run_forever` BEFORE the clean-up (never, with the repair) -/
 def runStop (f : Faults) (t : Nat) : List Prim → Circ × Bool → Circ × Bool
   | [], c => c
   | .saveAll :: r, (c, x) => runStop f t r ({ c with store := (saveAllF f c.store c.blocks).1 }, x)
@@ -1202,24 +1231,25 @@ def runStop (f : Faults) (t : Nat) : List Prim → Circ × Bool → Circ × Bool
   | .propagate :: _, (c, _) => ({ c with now := t, phase := .stopped }, true)
   | _ :: r, c => runStop f t r c
 
-/-- (d) ORDER on a working storage: all saves, then the stop time, then the first await of the clean-up — and
-    nothing but the clean-up when the start did not go through or there is no storage; nothing when no block was
-    started.  On a failing storage: an exception of a save or of the stop-time write leaves before the clean-up. -/
+/-- (d) ORDER: all saves, then the stop time, then the first await of the clean-up; a save that lets an exception
+    out, or a failing stop-time write, ends the save-and-stamp section (the handler only logs) and the clean-up
+    FOLLOWS all the same (the repair of C08-storage-fault-at-stop-skips-cleanup); nothing but the clean-up when the
+    start did not go through or there is no storage; nothing when no block was started -/
 theorem translated_persist_stop_order (so hs sr wr : Bool) :
     stopActs true true true false false = [.saveAll, .stamp, .cleanup] ∧
-    stopActs true true true true wr = [.fails .saveAll, .propagate] ∧
-    stopActs true true true false true = [.saveAll, .fails .stamp, .propagate] ∧
+    stopActs true true true true wr = [.fails .saveAll, .cleanup] ∧
+    stopActs true true true false true = [.saveAll, .fails .stamp, .cleanup] ∧
     stopActs true false hs sr wr = [.cleanup] ∧ stopActs true so false sr wr = [.cleanup] ∧
     stopActs false so hs sr wr = [] := by
   unfold stopActs
   cases so <;> cases hs <;> cases sr <;> cases wr <;> simp
 
 /-- (d) the translated fragment, run up to the first await on a storage with faults `f`, IS the model's
-    `stopBeginF` -/
+    `stopBeginF`, and no exception leaves it -/
 theorem translated_persist_stop_is_model (f : Faults) (c : Circ) (t : Nat)
     (hph : c.phase = .running ∨ c.phase = .aborted ∨ c.phase = .failed) :
     runStop f t (stopActs true c.startOk true (saveAllF f c.store c.blocks).2 f.write) (c, false)
-      = c.stopBeginF f t := by
+      = (c.stopBeginF f t, false) := by
   unfold stopActs Circ.stopBeginF Circ.stopBegin
   rcases hph with h | h | h <;> cases hs : c.startOk <;> cases hw : f.write <;>
     cases hx : saveAllF f c.store c.blocks with
